@@ -5,20 +5,27 @@ For sources of several shapes (each horizontal dimension over the residues mod 4
 the layout's block length), bit rates 16 .. 1/2, default and other layouts, 0..6 stored header arrays (NumPy and SEG-Y
 routes, fixtures of older format versions), ascending / descending / negative axes, and boxes from the boundary set of
 every axis (None, whole, aligned, unaligned, touching the end, single line; empty, inverted, outside), by index and by
-coordinate:
+coordinate; and sources CONVERTED FROM ZGY (small cubes written with pyzgy, > 1 block along z, first sample times that are
+zero / negative / between two milliseconds, intervals of 4, 2.5, 2, 0.5, 0.25 ms), whose sample axis lives in the doubles at header
+bytes 84:100 (D55):
 
   correspondence  the model (Model/Cropper.v over Gen/Cropping.v and Gen/Reader.v, evaluated inside Coq through
                   tools/coqeval.py) against the real cropper: same outcome (served / IndexError / packing error); the
                   output header equals the source header patched with the model's fields; the output data section
                   equals the source byte ranges the model's reads place; every footer array equals the source array
-                  permuted by the model's index function, followed by the model's padding.
+                  permuted by the model's index function, followed by the model's padding.  The header comparison
+                  includes the double patch (bytes 84:92): the model's binary64 value (Coq's SpecFloat, evaluated on the
+                  doubles of the source header) is packed and compared byte for byte.
   oracle          (specification decoder hz.SpecFile + the reader, never the model) the cropped file conforms
                   (length = expected_length()), its decoded volume is bitwise the source's decoded volume restricted
                   to the box widened outward to block boundaries and clipped, every read method and header accessor
-                  of the cropped file equals the source's restricted to that box, axes are the sub-ranges, it is
-                  structured with trace count = the box; refusals raise IndexError and leave no file.
+                  of the cropped file equals the source's restricted to that box, axes are the sub-ranges (sample axis:
+                  atol 1e-9), it is structured with trace count = the box; header bytes 76:100 (source / detection codes,
+                  the two doubles): the double interval and the codes are the source's, the double start is the source's
+                  sample time at the first sample of the box when the double interval is non-zero, else untouched;
+                  refusals raise IndexError and leave no file.
 """
-import os, sys, glob, struct, atexit
+import os, sys, glob, struct, atexit, math
 sys.path.insert(0, os.path.dirname(os.path.abspath(__file__)))
 from common import *
 a = parse_args()
@@ -46,11 +53,29 @@ def axis(n, first, step):
 
 
 def build_source(desc, path):
-    """desc: dict. kind numpy|segy|fixture|irregular|2d"""
+    """desc: dict. kind numpy|segy|fixture|irregular|2d|zgy"""
     g = random.Random(desc['seed'])
     k = desc['kind']
     if k == 'fixture':
         shutil.copy(desc['file'], path)
+        return
+    if k == 'zgy':
+        # a cube written with pyzgy and converted by the ZGY route: the sample axis is stored in the doubles at 84:100
+        from pyzgy.write import SeismicWriter
+        from seismic_zfp.conversion import ZgyConverter
+        shape = tuple(desc['shape'])
+        zp = path + '.zgy'
+        n_il, n_xl = shape[:2]
+        a0, ai = desc.get('annot', ((10, 100), (2, 3)))
+        with SeismicWriter(zp, size=shape, zstart=float(desc['zstart']), zinc=float(desc['zinc']), annotstart=tuple(a0), annotinc=tuple(ai),
+                           corners=[(0.0, 0.0), (100.0 * n_il, 0.0), (0.0, 50.0 * n_xl), (100.0 * n_il, 50.0 * n_xl)]) as w:
+            w.write_volume(rnd_cube(g, shape))
+
+        def conv():
+            with ZgyConverter(zp) as cv:
+                cv.run(path, bits_per_voxel=desc['bpv'])
+        quiet(conv)
+        os.remove(zp)
         return
     shape = tuple(desc['shape'])
     il = axis(shape[0], *desc.get('il', (1, 1))) if k != '2d' else None
@@ -158,6 +183,14 @@ def catalogue():
         p = os.path.join(REPO, 'test_data', f)
         if os.path.exists(p):
             add(kind='fixture', file=p, refuse=True)
+    # converted from ZGY (D55): > 1 block along z so that sample crops with z0 > 0 exist; start times negative / zero / positive /
+    # between two milliseconds (also negative: truncation toward zero), intervals 2.5, 0.5, 2, 0.25, 4 ms (exact in float32, as
+    # ZGY stores them); line numbers with increments 1..3
+    add(kind='zgy', shape=(5, 6, 300), bpv=8, zstart=-100.0, zinc=2.5)                        # 2 blocks of 256
+    add(kind='zgy', shape=(6, 9, 130), bpv=16, zstart=7.5, zinc=0.5, annot=((1, 1), (1, 1)))  # 2 blocks of 128
+    add(kind='zgy', shape=(8, 5, 520), bpv=4, zstart=1000.25, zinc=2.0, annot=((7, 300), (3, 2)))    # 2 blocks of 512
+    add(kind='zgy', shape=(4, 4, 300), bpv=16, zstart=-100.5, zinc=0.25, annot=((2, 1), (1, 2)))     # 3 blocks of 128
+    add(kind='zgy', shape=(9, 7, 600), bpv=8, zstart=0.0, zinc=4.0, annot=((1000, 5), (10, 1)))      # 3 blocks of 256
     if not QUICK:
         add(kind='numpy', shape=(7, 9, 4200), bpv=1, il=(1, 1), xl=(1, 1))
         add(kind='numpy', shape=(11, 12, 700), bpv=8, il=(9, -1), xl=(9, -1), nhdr=4)
@@ -170,6 +203,12 @@ def catalogue():
             sh = (rng.randrange(2, 14), rng.randrange(2, 14), rng.choice([60, 130, 300, 520]))
             add(kind=rng.choice(['numpy', 'segy']), shape=sh, bpv=rng.choice([8, 16]), il=(rng.randrange(-50, 50), rng.choice([1, 2, -1, -3])),
                 xl=(rng.randrange(-50, 50), rng.choice([1, 5, -2])), nhdr=rng.choice([2, 3, 4, 5]), dt_us=rng.choice([4000, 2000, 1000, 500]))
+        add(kind='zgy', shape=(3, 10, 1100), bpv=2, zstart=-2000.0, zinc=1.0)                          # 2 blocks of 1024
+        add(kind='zgy', shape=(7, 7, 400), bpv=16, zstart=-0.75, zinc=0.125, annot=((5, 5), (2, 2)))   # 4 blocks of 128
+        for _ in range(3):
+            add(kind='zgy', shape=(rng.randrange(2, 10), rng.randrange(2, 10), rng.choice([260, 300, 520])), bpv=rng.choice([8, 16]),
+                zstart=rng.choice([-512.5, -3.25, 0.0, 0.5, 12.0, 250.75]), zinc=rng.choice([0.5, 1.0, 2.0, 2.5, 4.0]),
+                annot=((rng.randrange(1, 50), rng.randrange(1, 50)), (rng.choice([1, 2, 3]), rng.choice([1, 2, 3]))))
     return S
 
 
@@ -224,8 +263,33 @@ def make_cases(n3, m3, nvalid, ninvalid, rows_only):
 
 # ------------------------------------------------------------------------------------------------ model side
 PREAMBLE = '''
+From Coq Require Import Floats.SpecFloat.
 Definition pk_code (p : packer) : Z := match p with PkU32 => 0 | PkI32 => 1 | PkBE16 => 2 end.
 Definition exn_code (e : exn) : Z := match e with IndexErr => 1 | OtherErr => 2 | _ => 3 end.
+(* binary64 = Coq.Floats.SpecFloat at prec 53, emax 1024 (axiom-free); a value is shown as (class, sign, mantissa, exponent) *)
+Definition b64_add := SFadd 53 1024.
+Definition b64_mul := SFmul 53 1024.
+Definition b64_div := SFdiv 53 1024.
+Definition b64 (m e : Z) : spec_float := binary_normalize 53 1024 m e false.
+Definition b64_of_Z (z : Z) : spec_float := b64 z 0.
+Definition b64_is0 (x : spec_float) : bool := SFeqb x (S754_zero false).
+Definition sgn (b : bool) : Z := if b then 1 else 0.
+Definition show_f (x : spec_float) : Z * Z * Z * Z :=
+  match x with
+  | S754_zero s => (0, sgn s, 0, 0) | S754_infinity s => (1, sgn s, 0, 0) | S754_nan => (2, 0, 0, 0)
+  | S754_finite s m e => (3, sgn s, Zpos m, e)
+  end.
+(* the double patch of regenerate_header on the doubles D of the source header, for the box of a served crop:
+   [(executed, first byte, last byte + 1, value)]; [(-1, 0, 0, _)] when the model is undefined *)
+Definition show_f64 (H : hdr) (D : zdbl spec_float) (o : outcome crop_out) : list (Z * Z * Z * (Z * Z * Z * Z)) :=
+  match o with
+  | Raise _ => []
+  | Return R =>
+    match crop_f64_fields spec_float b64_add b64_mul b64_div b64_of_Z b64_is0 H D (co_i0 R) (co_i1 R) (co_x0 R) (co_x1 R) (co_z0 R) (co_z1 R) with
+    | Some ps => map (fun p => match p with (en, lo, hi, v) => (sgn en, lo, hi, show_f v) end) ps
+    | None => [(-1, 0, 0, (2, 0, 0, 0))]
+    end
+  end.
 Definition show (T : list (Z * Z)) (o : outcome crop_out) : Z * list Z * list (Z * Z * Z * Z) * list (Z * Z * Z) * list Z * list Z :=
   match o with
   | Raise e => (exn_code e, [], [], [], [], [])
@@ -246,13 +310,35 @@ def opt(r):
     return 'None' if r is None else f'(Some ({zlit(int(r[0]))}, {zlit(int(r[1]))}))'
 
 
+def coq_f64(x):
+    """a Python float as a SpecFloat term (exact)"""
+    if math.isnan(x):
+        return 'S754_nan'
+    sg = 'true' if math.copysign(1.0, x) < 0 else 'false'
+    if math.isinf(x):
+        return f'(S754_infinity {sg})'
+    if x == 0:
+        return f'(S754_zero {sg})'
+    m, e = math.frexp(x)
+    return f'(b64 {zlit(int(m * (1 << 53)))} {zlit(e - 53)})'
+
+
+def py_f64(v):
+    """(class, sign, mantissa, exponent) as shown by the model -> Python float (exact)"""
+    cls, sg, m, e = v
+    x = 0.0 if cls == 0 else math.inf if cls == 1 else math.nan if cls == 2 else math.ldexp(m, e)
+    return -x if sg else x
+
+
 def model_term(src, mode, ranges):
     H = 'hdr_of_list ' + coqeval.zlist(src['hfields'])
-    A = '{| ax_z0_ms := %s; ax_dt_us := %s; ax_xl0 := %s; ax_xl_step := %s; ax_il0 := %s; ax_il_step := %s |}' % tuple(
+    A = '{| ax_z0_ms := %s; ax_dt_us := %s; ax_xl0 := %s; ax_xl_step := %s; ax_il0 := %s; ax_il_step := %s; ax_z0_sub_us := %s |}' % tuple(
         zlit(v) for v in src['afields'])
     f = 'crop_by_indexes' if mode == 'idx' else 'crop_by_coords'
     T = '[' + '; '.join(f'({k}, {ref})' for k, ref in src.get('table', [])) + ']'
-    return f'show {T} ({f} ({H}) {A} {opt(ranges[0])} {opt(ranges[1])} {opt(ranges[2])})'
+    D = '{| zd84 := %s; zd92 := %s |}' % tuple(coq_f64(x) for x in src['dbl'])
+    o = f'({f} ({H}) {A} {opt(ranges[0])} {opt(ranges[1])} {opt(ranges[2])})'
+    return f'let o := {o} in (show {T} o, show_f64 ({H}) {D} o)'
 
 
 # ------------------------------------------------------------------------------------------------ real side
@@ -262,7 +348,11 @@ def load_source(desc, path):
     s = lambda o: struct.unpack('<i', raw[o:o + 4])[0]
     src = {'desc': desc, 'path': path, 'raw': raw,
            'hfields': [u(0), u(4), u(8), u(12), s(40), u(44), u(48), u(52), u(56), u(60), u(64), u(68), u(72)],
-           'afields': [s(16), s(28), s(20), s(32), s(24), s(36)]}
+           'afields': [s(16), s(28), s(20), s(32), s(24), s(36), 0],
+           # the doubles at header bytes 84:92 (first sample time, ms) and 92:100 (interval * 1000): non-zero only in files
+           # converted from ZGY; the reader takes its sample axis from them whenever the second is non-zero
+           'dbl': struct.unpack('<dd', raw[84:100])}
+    src['f64_axis'] = src['dbl'][1] != 0
     sp = SpecFile(path)
     src['spec'] = sp
     src['refuse'] = desc.get('refuse') or desc['kind'] in ('irregular', '2d')
@@ -277,9 +367,19 @@ def load_source(desc, path):
             src['assume_ok'] = (len(r.ilines), len(r.xlines), len(r.zslices)) == src['n3']
             st = lambda ax: int(ax[1] - ax[0]) if len(ax) > 1 else 1
             dt = int(round((r.zslices[1] - r.zslices[0]) * 1000)) if len(r.zslices) > 1 else 1000
-            src['afields'] = [int(r.zslices[0]), dt, int(r.xlines[0]), st(r.xlines), int(r.ilines[0]), st(r.ilines)]
-            if float(r.zslices[0]) != int(r.zslices[0]):
-                R.notes.append(f'{desc}: first sample time {r.zslices[0]} is not an integer')
+            # first sample time = 1000 * z0_ms + sub_us microseconds (sub_us = 0 unless a ZGY source started between milliseconds)
+            z0_ms = int(r.zslices[0])
+            sub_us = int(round(float(r.zslices[0]) * 1000)) - 1000 * z0_ms
+            src['afields'] = [z0_ms, dt, int(r.xlines[0]), st(r.xlines), int(r.ilines[0]), st(r.ilines), sub_us]
+            if sub_us != 0 and not src['f64_axis']:
+                R.notes.append(f'{desc}: first sample time {r.zslices[0]} is not an integer although the axis comes from the integer fields')
+            # modelling convention of the generator (np.int32(self.zslices[k]) = the exact microsecond axis truncated): checked
+            # where the cropper can use it, i.e. at every block boundary of the sample axis
+            zq = lambda v: -((-v) // 1000) if v < 0 else v // 1000
+            for k in range(0, r.n_samples, src['bs'][2]):
+                if int(np.int32(r.zslices[k])) != zq(1000 * z0_ms + sub_us + k * dt):
+                    R.notes.append(f'{desc}: sample time {r.zslices[k]} at index {k} does not truncate like the exact microsecond axis')
+                    src['assume_ok'] = False
             if not src['refuse']:
                 src['vol'] = r.read_volume()
                 src['keys'] = list(r.stored_header_keys)
@@ -417,6 +517,21 @@ def check_output_(src, out, box, inp):
     s0 = src['spec']
     if sp.bs != s0.bs or sp.rate != s0.rate or sp.nha != s0.nha or sp.ver != s0.ver or sp.nhb != s0.nhb:
         V('header', 'layout / rate / array count / version / header blocks differ from the source')
+    # bytes 76:100: source code, detection code, and the double-precision sample axis of files converted from ZGY (the
+    # reader prefers it whenever the double at 92:100 is non-zero)
+    with open(out, 'rb') as fo:
+        oh = fo.read(100)
+    if oh[76:84] != src['raw'][76:84]:
+        V('header', 'source / detection codes (bytes 76:84) differ from the source')
+    if oh[92:100] != src['raw'][92:100]:
+        V('header', f'double interval (bytes 92:100) is {struct.unpack("<d", oh[92:100])[0]}, the source has {src["dbl"][1]}')
+    if src['f64_axis']:
+        d84 = struct.unpack('<d', oh[84:92])[0]
+        if oh[84:92] != struct.pack('<d', float(src['zslices'][z0])):
+            V('header', f'double start (bytes 84:92) is {d84!r}; the source\'s sample time at the first sample of the box '
+                        f'(index {z0}) is {float(src["zslices"][z0])!r}')
+    elif oh[84:92] != src['raw'][84:92]:
+        V('header', 'bytes 84:92 changed although the source has no double-precision sample axis')
     if s0.after_021 and sp.tracecount_field != ni * nx:
         V('trace count', f'field says {sp.tracecount_field}, box has {ni * nx}')
     # decoded volume, by the specification decoder: the whole padded output against the padded source
@@ -435,9 +550,10 @@ def check_output_(src, out, box, inp):
             return
         if not (np.array_equal(r.ilines, src['ilines'][i0:i1]) and np.array_equal(r.xlines, src['xlines'][x0:x1])):
             V('axes', f'ilines {list(r.ilines)[:3]}.. xlines {list(r.xlines)[:3]}.. are not the source sub-ranges')
-        zok = len(r.zslices) == nz and np.allclose(r.zslices, src['zslices'][z0:z1], rtol=0, atol=1e-6)
+        zok = len(r.zslices) == nz and np.allclose(r.zslices, src['zslices'][z0:z1], rtol=0, atol=1e-9)
         dt_us = src['afields'][1]
-        guard = (z0 * dt_us) % 1000 == 0
+        # D7h concerns the INTEGER start time: a source converted from ZGY keeps its axis in doubles and must always be right
+        guard = src['f64_axis'] or (z0 * dt_us) % 1000 == 0
         if not zok:
             if not guard:
                 R.count('known_finding_D7h_cases')
@@ -497,8 +613,11 @@ def check_output_(src, out, box, inp):
             V('text header', 'differs from the source')
 
 
+MODEL_F64_UNDEFINED = []
+
+
 def check_corr(src, out, res, m, inp):
-    """model outcome m = (code, nums, fields, reads, idx) against the real result"""
+    """model outcome m = (code, nums, fields, reads, idx, arrays, double patches) against the real result"""
     C = lambda detail: R.violation('corr', inp, detail)
     code = m[0]
     mres = {0: 'ok', 1: 'IndexErr', 2: 'OtherErr'}.get(code, 'other')
@@ -523,6 +642,22 @@ def check_corr(src, out, res, m, inp):
     except struct.error as e:
         C(f'model field does not pack: {e}')
         return
+    # the double patch (D55): the model's binary64 value, packed; nothing but the listed patches may differ from the source
+    f64 = m[6]
+    if any(en < 0 for en, _, _, _ in f64):
+        # (reported once: it is a property of the generated statement, not of the input; the oracles go on)
+        if not MODEL_F64_UNDEFINED:
+            C('the model of the double patch is undefined (the guard of the generated statement is not the reader\'s branch test '
+              'on bytes 92:100): header bytes 84:100 are left to the oracle')
+            MODEL_F64_UNDEFINED.append(True)
+        hb[84:100] = o[84:100]
+        f64 = []
+    else:
+        for en, lo, hi, v in f64:
+            if en:
+                hb[lo:hi] = struct.pack('<d', py_f64(v))
+        if [bool(en) for en, _, _, _ in f64] != [src['f64_axis']]:
+            C(f'model: double patch executed = {[en for en, _, _, _ in f64]} for a source whose double interval is {src["dbl"][1]}')
     if bytes(hb) != o[:4096 * nhb]:
         diff = [k for k in range(4096 * nhb) if hb[k] != o[k]][:8]
         C(f'output header differs from the source header patched with the model fields at bytes {diff}')
